@@ -131,6 +131,11 @@ func (se *subscriptionEntry) prepareResponse(resp *requests.Response) *requests.
 }
 
 func (se *subscriptionEntry) Close() {
+	// Listen closes closeCh when it ends on its own (upstream completed or failed);
+	// a stop request which was waiting for it at that moment has nothing left to do
+	defer func() {
+		recover()
+	}()
 	se.Lock()
 	isClosed := se.isClosed
 	se.Unlock()
